@@ -1,0 +1,148 @@
+//go:build verif
+
+package starlark
+
+// Verification hook for property C01 (compiler/interpreter agree with the
+// source semantics). Compiled only with -tags verif. Add-only and read-only:
+// it renders the compiled form of a Program; nothing here is used by the
+// interpreter.
+
+import (
+	"fmt"
+	"math/big"
+	"strings"
+
+	"go.starlark.net/internal/compile"
+)
+
+// VerifC01Insn is one decoded instruction. Arg is the operand as stored
+// (for jumps: the byte address), 0 for operand-less opcodes.
+type VerifC01Insn struct {
+	PC  int      `json:"pc"`
+	Op  string   `json:"op"`
+	Arg int      `json:"arg"`
+	Pos [2]int32 `json:"pos"`
+}
+
+// VerifC01Func mirrors compile.Funcode.
+type VerifC01Func struct {
+	Name      string         `json:"name"`
+	Pos       [2]int32       `json:"pos"`
+	Locals    []string       `json:"locals"`
+	Cells     []int          `json:"cells"`
+	FreeVars  []string       `json:"freevars"`
+	MaxStack  int            `json:"maxstack"`
+	NumParams int            `json:"numparams"`
+	NumKwonly int            `json:"numkwonly"`
+	Varargs   bool           `json:"varargs"`
+	Kwargs    bool           `json:"kwargs"`
+	Code      []VerifC01Insn `json:"code"`
+}
+
+// VerifC01Const is one element of compile.Program.Constants.
+// T is "int", "bigint", "string", "bytes" or "float"; V is the decimal
+// text, the raw string, or the %g rendering.
+type VerifC01Const struct {
+	T string `json:"t"`
+	V string `json:"v"`
+}
+
+// VerifC01Prog mirrors compile.Program.
+type VerifC01Prog struct {
+	Toplevel  *VerifC01Func   `json:"toplevel"`
+	Functions []*VerifC01Func `json:"functions"`
+	Constants []VerifC01Const `json:"constants"`
+	Names     []string        `json:"names"`
+	Globals   []string        `json:"globals"`
+	Recursion bool            `json:"recursion"`
+}
+
+func verifC01Func(fn *compile.Funcode) *VerifC01Func {
+	out := &VerifC01Func{
+		Name:      fn.Name,
+		Pos:       [2]int32{fn.Pos.Line, fn.Pos.Col},
+		Locals:    []string{},
+		Cells:     []int{},
+		FreeVars:  []string{},
+		MaxStack:  fn.MaxStack,
+		NumParams: fn.NumParams,
+		NumKwonly: fn.NumKwonlyParams,
+		Varargs:   fn.HasVarargs,
+		Kwargs:    fn.HasKwargs,
+		Code:      []VerifC01Insn{},
+	}
+	for _, b := range fn.Locals {
+		out.Locals = append(out.Locals, b.Name)
+	}
+	out.Cells = append(out.Cells, fn.Cells...)
+	for _, b := range fn.FreeVars {
+		out.FreeVars = append(out.FreeVars, b.Name)
+	}
+	// Linear decoding from byte 0, exactly as the loop in interp.go reads
+	// instructions: one opcode byte, then, for op >= OpcodeArgMin, a
+	// little-endian base-128 varint.
+	code := fn.Code
+	for pc := 0; pc < len(code); {
+		start := pc
+		op := compile.Opcode(code[pc])
+		pc++
+		var arg uint32
+		if op >= compile.OpcodeArgMin {
+			for s := uint(0); pc < len(code); s += 7 {
+				b := code[pc]
+				pc++
+				arg |= uint32(b&0x7f) << s
+				if b < 0x80 {
+					break
+				}
+			}
+		}
+		p := fn.Position(uint32(start))
+		out.Code = append(out.Code, VerifC01Insn{
+			PC:  start,
+			Op:  strings.TrimSpace(op.String()),
+			Arg: int(arg),
+			Pos: [2]int32{p.Line, p.Col},
+		})
+	}
+	return out
+}
+
+// VerifC01Dump renders the compiled program.
+func VerifC01Dump(p *Program) *VerifC01Prog {
+	cp := p.compiled
+	out := &VerifC01Prog{
+		Toplevel:  verifC01Func(cp.Toplevel),
+		Functions: []*VerifC01Func{},
+		Constants: []VerifC01Const{},
+		Names:     []string{},
+		Globals:   []string{},
+		Recursion: cp.Recursion,
+	}
+	for _, fn := range cp.Functions {
+		out.Functions = append(out.Functions, verifC01Func(fn))
+	}
+	for _, c := range cp.Constants {
+		var vc VerifC01Const
+		switch c := c.(type) {
+		case int64:
+			vc = VerifC01Const{"int", fmt.Sprint(c)}
+		case *big.Int:
+			vc = VerifC01Const{"bigint", c.String()}
+		case string:
+			vc = VerifC01Const{"string", c}
+		case compile.Bytes:
+			vc = VerifC01Const{"bytes", string(c)}
+		case float64:
+			vc = VerifC01Const{"float", fmt.Sprintf("%g", c)}
+		default:
+			vc = VerifC01Const{"other", fmt.Sprintf("%T", c)}
+		}
+		out.Constants = append(out.Constants, vc)
+	}
+	out.Names = append(out.Names, cp.Names...)
+	for _, b := range cp.Globals {
+		out.Globals = append(out.Globals, b.Name)
+	}
+	return out
+}
